@@ -13,10 +13,10 @@ NOTE = ("Trusted base: CrossHair's models of str/int/containers, z3, the stubs l
 CLAIMS = {
     "C01": ("Per corpus tree, for every user state inside the bounds (incl. values on hidden / promptless options, malformed and out-of-range numbers): value and visibility of every option computed by the real evaluator equal an executable specification written from language.rst / defaults.rst on the tree's own AST (independent of both parsers); and a user value on an option whose prompt is hidden changes no value and no output.", "DESIGN.md 4/C01"),
     "C02": ("Per corpus tree, for every reachable user state inside the bounds (incl. a fully symbolic string value per string option): write_config -> fresh load_config reproduces every value and assignment line, raises no default-mismatch / multiple-assignment / unknown-symbol diagnostics, and the second write is byte-identical (no file operation). Also second generation (save, reload into the used instance, one symbolic edit) and the deprecated block.", "DESIGN.md 4/C02"),
-    "C03": ("Inductive step for the evaluation caches: for each corpus tree, for every pre-state inside the bounds with all caches filled, and every single operation (set/unset/reset/reset-menu, symbolic value), values read incrementally == values after discarding all caches == values of a fresh instance given the same user state. Solver-exhausted per job.", "DESIGN.md 4/C03"),
+    "C03": ("Inductive step for the evaluation caches: for each corpus tree, for every pre-state inside the bounds with all caches filled, and every single operation (set/unset/reset/reset-menu, symbolic value), values read incrementally == values after discarding all caches == values of a fresh instance given the same user state; the step is run with all caches filled (forward / reverse read order), with exactly one symbolic item read, and with nothing read before the operation; plus: loading a tool-written file into a used instance == loading it into a fresh one. Solver-exhausted per job.", "DESIGN.md 4/C03"),
     "C04": ("Per corpus program: both parsers accept/reject alike and build the same menu tree (concrete comparison), and for every user state inside the bounds the two instances agree on values, visibility, sdkconfig, header and JSON (solver-decided). The quantifier over programs is a finite corpus.", "DESIGN.md 4/C04"),
     "C05": ("Per corpus tree with choices: for every user state (members, picks, condition options), after one further symbolic operation with live caches, and after loading files assigning several members: exactly one visible member is y and it is the specified one (pick, else first satisfied default, else first visible); header / CMake / JSON define only that member.", "DESIGN.md 4/C05"),
-    "C06": ("Per corpus tree with numeric options: for every user state with symbolic ints and the full malformed / negative / huge / differently formatted candidate lists, arriving via set_value or sdkconfig lines: every value is well-formed for its type, inside the active range, and header / CMake / JSON render the same number without raising.", "DESIGN.md 4/C06"),
+    "C06": ("Per corpus tree with numeric options: for every user state with symbolic ints and the full malformed / negative / huge / differently formatted candidate lists, arriving via set_value or sdkconfig lines: every value is well-formed for its type, inside the active range, and header / CMake / JSON render the same number without raising; also after one further symbolic operation on each option with all caches filled.", "DESIGN.md 4/C06"),
     "C07": ("Per corpus tree x rename shape: for every user state, the five output formats (sdkconfig, header, CMake, JSON, auto.conf) read back with small trusted readers agree on presence and value of every option and every deprecated alias (inversion per alias line).", "DESIGN.md 4/C07"),
     "C08": ("Clause 1: per corpus tree and every user state, the tool-written file loaded with and without its default-marked entries gives the same configuration, now and after one further symbolic operation; unmarked entries come back as user values. Clause 2: 13 (old tree, new tree) pairs x policy {sdkconfig, kconfig}: kconfig ignores stale default-marked entries, sdkconfig keeps a still-valid stored value, both report the mismatch.", "DESIGN.md 4/C08"),
     "C09": ("Totality: per accepted corpus tree, for every user state with malformed candidates, every value / visibility / output evaluates without exception. Cycles: all 354 forward-edge x back-edge mutants are rejected at load with a dependency-loop error (enumeration of concrete programs).", "DESIGN.md 4/C09"),
@@ -25,11 +25,11 @@ CLAIMS = {
     "C12": ("Per corpus tree (and tree-version pair): symbolic pre-state, completed sync, symbolic operation, sync with symbolic crash point (before any mutating file operation or inside a write), further symbolic operation, rerun from a fresh instance: every option (and alias) whose header value differs from the last completed sync has been touched since; without crash: no untouched change, no spurious touch, repeated sync is a no-op.", "DESIGN.md 4/C12"),
     "C13": ("Per corpus tree: all core writers and the real kconfgen main() (config, header, cmake, json, json_menus, savedefconfig) run twice touch no destination the second time, and after one symbolic operation rewrite exactly the destinations whose text changes; write_config(save_old=True) over a complete previous file (regular or symlink) with symbolic crash point never loses both copies.", "DESIGN.md 4/C13"),
     "C14": ("Per corpus tree x protocol version 1-3: a model client applying the initial message and the replies to 1-2 symbolic requests (set / reset / load / save, valid and invalid) holds the state a fresh server reports for the file written by save; options missing there are reported invisible.", "DESIGN.md 4/C14"),
-    "C15": ("Per corpus tree: for one request of symbolic shape (every protocol key, valid and wrong-typed; every version code; visible / invisible / unknown / menu / bogus targets; values of every JSON type) from a sampled configuration, and for short sequences with bad requests first: run_server raises nothing, writes exactly one JSON line per line received and nothing else to stdout, and an entry that did not take effect leaves the configuration as if it had not been sent.", "DESIGN.md 4/C15"),
+    "C15": ("Per corpus tree: for one request of symbolic shape (every protocol key, valid and wrong-typed; every version code; visible / invisible / unknown / menu / bogus targets; values of every JSON type) from a sampled configuration, and for short sequences with bad requests first: run_server raises nothing, writes exactly one JSON line per line received and nothing else to stdout, an entry that did not take effect leaves the configuration as if it had not been sent, and an unreadable / unwritable file name in load / save is reported in `error` with configuration and session file untouched. Log messages are passed through rich markup parsing like the real console.", "DESIGN.md 4/C15"),
     "C16": ("Per corpus tree x initial file (absent, tool-written, hand-edited variants): every sequence of 2 (thorough 3) UI-level actions incl. saves and loads, driven through the real MenuConfigApp handlers on a stand-in self: whenever needs_save() is false the file equals what saving would write; right after a save or after loading a tool-written file needs_save() is false.", "DESIGN.md 4/C16"),
     "C17": ("Per corpus tree: every sequence of 2 (thorough 3) UI-level actions (navigation, Enter, Space, y/n, reset, show-all, jump-to, load) with typed texts from candidate lists: no exception, the highlighted row exists, locked options keep their value, only assignable values are applied, a text the validator accepts is the value the option then has.", "DESIGN.md 4/C17"),
     "C19": ("On a fixed directory skeleton with symbolic file-system facts (project roots, rename files per directory) the verdict of the real _prepare_deprecated_options + check_deprecated_options for each defaults file equals a memo-free specification of 'global scope or own nearest project', in two different orders / subsets of the files.", "DESIGN.md 4/C19"),
-    "C20": ("Per (tree, target): visibility and shown conditions computed by the real gen_kconfig_doc; for every assignment of the user-settable options a hidden prompt is n, every shown condition has the truth value of the condition it was simplified from, dropped rows never apply; every :ref: of the generated text has its anchor.", "DESIGN.md 4/C20"),
+    "C20": ("Per (tree, target): visibility and shown conditions computed by the real gen_kconfig_doc; for every assignment of the user-settable options a hidden prompt is n, every shown condition (recomputed with the writer's helpers, and read back from the generated text for can-be-set-when / forced-by / affects rows) has the truth value of the Kconfig condition, dropped rows never apply; every :ref: of the generated text has its anchor.", "DESIGN.md 4/C20"),
 }
 
 NA = {
